@@ -273,6 +273,8 @@ func nestedInline(toks []dsl.Tok) bool {
 type c09Case struct {
 	// FileMode: also run `format -f` on a file holding the text (through the built CLI)
 	FileMode bool     `json:"file_mode,omitempty"`
+	// StrMode: also run `format -d <text>` (through the built CLI); stdout must be the same text
+	StrMode bool     `json:"str_mode,omitempty"`
 	Text    string   `json:"text"`
 	Sites   []string `json:"sites,omitempty"`   // grammatical position class of each comment, in order
 	Invalid string   `json:"invalid,omitempty"` // mutation class when the text is invalid by construction
@@ -312,6 +314,14 @@ func evalC09(k c09Case) []pbt.Violation {
 			return []pbt.Violation{{External: true, Signature: "file-mode-touches-file-on-error", Detail: "the file was changed although the text has a syntax error"}}
 		case err != nil && r.Exit == 0:
 			return []pbt.Violation{{External: true, Signature: "file-mode-exit0-on-error", Detail: "exit status 0 on a syntax error"}}
+		}
+	}
+	if k.StrMode && cli.Bin() != "" && err == nil {
+		dir := cli.Scratch("c09d")
+		r := cli.Run(dir, 60*time.Second, nil, nil, cli.Bin(), "format", "-d", k.Text)
+		os.RemoveAll(dir)
+		if so := string(r.Stdout); r.Exit != 0 || (so != out && so != out+"\n") {
+			return []pbt.Violation{{External: true, Signature: "string-mode-differs", Detail: fmt.Sprintf("`format -d` (exit %d) printed %q; formatting the same text gives %q", r.Exit, clip(so, 200), clip(out, 200))}}
 		}
 	}
 	if k.Invalid != "" {
@@ -598,6 +608,10 @@ func TestC09(t *testing.T) {
 		if rapid.IntRange(0, 11).Draw(rt, "file_mode") == 0 && !strings.Contains(tc.Text, "\x00") {
 			k.FileMode = true
 			c.Class("file-mode-through-cli")
+		}
+		if rapid.IntRange(0, 11).Draw(rt, "str_mode") == 0 && !strings.Contains(tc.Text, "\x00") && strings.TrimSpace(tc.Text) != "" && !strings.HasPrefix(tc.Text, "-") {
+			k.StrMode = true
+			c.Class("string-mode-through-cli")
 		}
 		if rapid.IntRange(0, 4).Draw(rt, "make_invalid") == 0 {
 			k.Text, k.Invalid = invalidate(rt, tc.Toks, tc.Text)
